@@ -932,6 +932,23 @@ func main() {
 	}
 	b.WriteString("]\n\n")
 
+	// moves between mailboxes
+	b.WriteString("/-- functions that move a link from one mailbox to another, and whether they consult RowsAffected of what they removed -/\ndef moveChecks : List (Bytes × Bool) := [\n")
+	for _, name := range []string{"message.MoveMessageToMailbox"} {
+		pkg, fn, _ := strings.Cut(name, ".")
+		checked := false
+		if fd := pkgs[pkg][fn]; fd != nil {
+			ast.Inspect(fd.Body, func(n ast.Node) bool {
+				if se, ok := n.(*ast.SelectorExpr); ok && se.Sel.Name == "RowsAffected" {
+					checked = true
+				}
+				return true
+			})
+		}
+		fmt.Fprintf(&b, "  (%s, %s),\n", lb(name), bl(checked))
+	}
+	b.WriteString("]\n\n")
+
 	// calls that end the process from inside the service packages (not cmd/*, not the test-support files)
 	b.WriteString("structure ExitFact where\n  pkg : Bytes\n  inFunc : Bytes\n  call : Bytes\nderiving Repr\n\n")
 	b.WriteString("def exitCalls : List ExitFact := [\n")
